@@ -62,6 +62,9 @@ package server
 // from C07: "it becomes Established only after a valid OPEN ...; every invalid OPEN, unexpected or malformed
 // message ... yields the NOTIFICATION ... and next state the RFCs prescribe": OpenConfirm (and no NOTIFICATION)
 // only for an OPEN that ValidateOpenMsg accepts, otherwise Idle together with a NOTIFICATION
+//@ func newfsmStateReason
+//@   modifies nothing
+//@   ensures result != nil && fresh(result)
 //@ func (*fsm).handleOpen
 //@   requires fsm != nil && fmsg != nil
 //@   claims post panic
@@ -69,6 +72,11 @@ package server
 //@   ensures result0 == bgp.BGP_FSM_OPENCONFIRM || result0 == bgp.BGP_FSM_IDLE
 //@   ensures result0 == bgp.BGP_FSM_OPENCONFIRM ==> result2 == nil && typeOf(old(fmsg.MsgData)) == (*bgp.BGPMessage)
 //@   ensures result0 == bgp.BGP_FSM_IDLE ==> result2 != nil
+// from C07: "every ... unexpected or malformed message ... yields the NOTIFICATION code/subcode ... the RFCs prescribe":
+// anything but an OPEN while waiting for the OPEN is an FSM error with the RFC 6608 OpenSent subcode; a message
+// that failed to decode is answered with the code/subcode the decoder attached to it
+//@   ensures typeOf(old(fmsg.MsgData)) == (*bgp.BGPMessage) && old(fmsg.MsgData.(*bgp.BGPMessage).Header.Type) != bgp.BGP_MSG_OPEN ==> result0 == bgp.BGP_FSM_IDLE && isNotif(result2, bgp.BGP_ERROR_FSM_ERROR, bgp.BGP_ERROR_SUB_RECEIVE_UNEXPECTED_MESSAGE_IN_OPENSENT_STATE)
+//@   ensures typeOf(old(fmsg.MsgData)) == (*bgp.MessageError) ==> result0 == bgp.BGP_FSM_IDLE && isNotif(result2, int(old(fmsg.MsgData.(*bgp.MessageError).TypeCode)), int(old(fmsg.MsgData.(*bgp.MessageError).SubTypeCode)))
 
 // =============================================================================================
 // C17 — RT Constraint: a VPN route is advertised iff the peer has a membership for one of its targets
